@@ -128,3 +128,115 @@ Fixpoint guard_C18_rewire (dm : dims) (st : state) (h : list op) : bool :=
   | [] => true
   | o :: r => guard_C18_rewire_op st o && guard_C18_rewire dm (fst (step dm st o)) r
   end.
+
+(* ================================================================================================================ *)
+(* Round 2: the invariant for ALL histories (no guard), framed by an executable status of every program name.
+
+   Known finding C18-rewire-stale makes the plain invariant false once the wiring of a used name changes.  The status
+   tracks exactly how far the damage goes, separately for the generator side and the acquisition side:
+     clean    the routing clauses hold for this name on every device (current wiring);
+     covered  the wiring of a name the program uses was changed after its registration: the devices still hold the
+              copies of the OLD routing, but exactly on the devices of the participation record.  remove_program,
+              register_program(update=True) and clear_programs (when every recorded device is still wired) make the
+              name clean again;
+     lost     clear_programs ran while a recorded device was no longer wired: a copy may survive without a record.
+              Nothing is claimed about a lost name any more.
+   A name is "covered" iff it is in the cov list and not in the lost list; "clean" iff in neither. *)
+
+Definition sch_full_eqb (a b : sch) : bool := sch_eqb a b && N.eqb (s_trafo a) (s_trafo b).
+(* the routing only reads (dac, mask name) of a mask object: another object for the same pair changes nothing *)
+Definition mask_route_eqb (a b : mask) : bool := N.eqb (m_dac a) (m_dac b) && N.eqb (m_name a) (m_name b).
+Definition same_members {A} (e : A -> A -> bool) (a b : list A) : bool :=
+  forallb (fun x => existsb (e x) b) a && forallb (fun x => existsb (e x) a) b.
+
+Definition users_ch (rg : list (N * reg)) (id : N) : list N :=
+  map fst (filter (fun nr => memN id (r_chans (snd nr))) rg).
+Definition users_meas (rg : list (N * reg)) (name : N) : list N :=
+  map fst (filter (fun nr => has_key name (r_meas (snd nr))) rg).
+Definition filter_out (n : N) (l : list N) : list N := filter (fun x => negb (N.eqb x n)) l.
+
+(* (cov, lost) of the generator side after operation o executed in state st *)
+Definition track_awg (dm : dims) (st : state) (o : op) (cl : list N * list N) : list N * list N :=
+  let (cov, lost) := cl in
+  let (st', e) := step dm st o in
+  match o with
+  | OSetChannel id _ _ | ORmChannel id =>
+      if same_members sch_full_eqb (get_set id (chmap st)) (get_set id (chmap st')) then (cov, lost)
+      else (users_ch (regs st) id ++ cov, lost)
+  | ORegister name _ _ _ _ => match e with None => (filter_out name cov, lost) | Some _ => (cov, lost) end
+  | ORemove name => (filter_out name cov, lost)
+  | OClear =>
+      ([], filter (fun n => match lookup n (regs st) with
+                            | Some r => negb (forallb (fun a => memN a (known_awgs (chmap st))) (r_awgs r))
+                            | None => true
+                            end) cov ++ lost)
+  | _ => (cov, lost)
+  end.
+
+Definition track_dac (dm : dims) (st : state) (o : op) (cl : list N * list N) : list N * list N :=
+  let (cov, lost) := cl in
+  let (st', e) := step dm st o in
+  match o with
+  | OSetMeasurement name _ _ =>
+      if same_members mask_route_eqb (get_set name (mmap st)) (get_set name (mmap st')) then (cov, lost)
+      else (users_meas (regs st) name ++ cov, lost)
+  | ORegister name _ _ _ _ => match e with None => (filter_out name cov, lost) | Some _ => (cov, lost) end
+  | ORemove name => (filter_out name cov, lost)
+  | OClear =>
+      ([], filter (fun n => match lookup n (regs st) with
+                            | Some r => negb (forallb (fun d => memN d (known_dacs (mmap st))) (r_dacs r))
+                            | None => true
+                            end) cov ++ lost)
+  | _ => (cov, lost)
+  end.
+
+Record tstate := { t_st : state; t_awg : list N * list N; t_dac : list N * list N }.
+Definition tinit : tstate := {| t_st := init_state; t_awg := ([], []); t_dac := ([], []) |}.
+Definition tstep (dm : dims) (t : tstate) (o : op) : tstate :=
+  {| t_st := fst (step dm (t_st t) o);
+     t_awg := track_awg dm (t_st t) o (t_awg t);
+     t_dac := track_dac dm (t_st t) o (t_dac t) |}.
+Definition trun (dm : dims) (t : tstate) (h : list op) : tstate := fold_left (tstep dm) h t.
+
+Definition is_lost (cl : list N * list N) (n : N) : bool := memN n (snd cl).
+Definition is_cov (cl : list N * list N) (n : N) : bool := memN n (fst cl) && negb (memN n (snd cl)).
+Definition is_clean (cl : list N * list N) (n : N) : bool := negb (memN n (fst cl)) && negb (memN n (snd cl)).
+
+(* generator side, every history *)
+Definition framed_inv_awg (dm : dims) (cl : list N * list N) (st : state) : Prop :=
+  nodupN (keys (regs st)) = true
+  /\ (forall a, nodupN (keys (a_progs (awg_of st a))) = true)
+  (* clean names: the three clauses of awg_exact and the exact participation record *)
+  /\ (forall a n e, is_clean cl n = true -> lookup n (a_progs (awg_of st a)) = Some e ->
+        exists r, lookup n (regs st) = Some r /\ uses_awg (chmap st) (r_chans r) a = true
+                  /\ entry_ok dm (chmap st) (r_tag r) (r_chans r) a e = true)
+  /\ (forall a n r, is_clean cl n = true -> lookup n (regs st) = Some r ->
+        uses_awg (chmap st) (r_chans r) a = true -> has_key n (a_progs (awg_of st a)) = true)
+  /\ (forall n r, is_clean cl n = true -> lookup n (regs st) = Some r ->
+        forall a, memN a (r_awgs r) = uses_awg (chmap st) (r_chans r) a)
+  (* covered names: registered, and the copies sit exactly on the recorded generators *)
+  /\ (forall n, is_cov cl n = true ->
+        exists r, lookup n (regs st) = Some r
+                  /\ forall a, has_key n (a_progs (awg_of st a)) = memN a (r_awgs r))
+  (* every name that is not lost: a generator armed with it holds it *)
+  /\ (forall a n, is_lost cl n = false -> a_armed (awg_of st a) = Some n ->
+        has_key n (a_progs (awg_of st a)) = true).
+
+Definition framed_inv_dac (cl : list N * list N) (st : state) : Prop :=
+  (forall d, nodupN (keys (d_wins (dac_of st d))) = true)
+  /\ (forall d n w, is_clean cl n = true -> lookup n (d_wins (dac_of st d)) = Some w ->
+        exists r, lookup n (regs st) = Some r /\ uses_dac (mmap st) (r_meas r) d = true
+                  /\ dac_entry_ok (mmap st) (r_meas r) d w = true)
+  /\ (forall d n r, is_clean cl n = true -> lookup n (regs st) = Some r ->
+        uses_dac (mmap st) (r_meas r) d = true -> has_key n (d_wins (dac_of st d)) = true)
+  /\ (forall n r, is_clean cl n = true -> lookup n (regs st) = Some r ->
+        forall d, memN d (r_dacs r) = uses_dac (mmap st) (r_meas r) d)
+  /\ (forall n, is_cov cl n = true ->
+        exists r, lookup n (regs st) = Some r
+                  /\ forall d, has_key n (d_wins (dac_of st d)) = memN d (r_dacs r))
+  /\ (forall d n, is_lost cl n = false -> d_armed (dac_of st d) = Some n ->
+        has_key n (d_wins (dac_of st d)) = true).
+
+(* update_parameters reaches exactly the generators the program uses *)
+Definition delivered_ok cm (chans : list N) (got : list N) : Prop :=
+  NoDup got /\ forall a, In a got <-> uses_awg cm chans a = true.
